@@ -1555,6 +1555,143 @@ def run_stored_shapes(ctx, app, client, ch: Channel, rng):
         ch.errors.append("stored-shape stream could not be registered")
 
 
+# ---- stored metadata written by each route (upload, index, edit, re-index, migration) ---------
+
+META_STREAM = "c13meta"
+_META: dict = {}
+
+
+def _form_token(client, url, pattern):
+    """the CSRF token the real page embeds (form field or data-csrf attribute)"""
+    page = client.get(url)
+    m = re.search(pattern, page.get_data(as_text=True), re.S)
+    if page.status_code != 200 or not m:
+        raise RuntimeError(f"no CSRF token on {url} (status {page.status_code})")
+    return m.group(1)
+
+
+def _ensure_meta(app):
+    """create (once per process) the stream `c13meta` whose MediaFile / Blob rows are written by
+    the application's own routes, as the media-group user through the real pages and their CSRF
+    tokens: upload form, index request, edit-media page (language, track id, twice), re-index after
+    an edit, and the unique-track-id migration.  → {stem: route label}"""
+    if _META:
+        return _META
+    import io
+    import appboot
+    shapes = _ensure_shapes(app)
+    t1 = (appboot.FIXTURES / "bbb" / "bbb_t1.mp4").read_bytes()
+    a1 = (appboot.FIXTURES / "bbb" / "bbb_a1.mp4").read_bytes()
+    with app.ctx() as models:
+        from dashlive.drm.playready import PlayReady
+        st = models.Stream(title="C13 stored metadata", directory=META_STREAM, marlin_la_url="ms3://localhost/c13",
+                           playready_la_url=PlayReady.TEST_LA_URL)
+        models.db.session.add(st)
+        models.db.session.commit()
+        spk = st.pk
+    mc = app.client()
+    if app.login(mc, appboot.MEDIA).status_code != 200:
+        raise RuntimeError("media user could not log in")
+    plan = [("meta_up_t1", t1, "upload+index"), ("meta_up_a1", a1, "upload+index"),
+            ("meta_ed_t1", t1, "edit(lang)"), ("meta_ed_a1", a1, "edit(track id)"),
+            ("meta_ed2_t1", t1, "edit(track id)+edit(lang)+re-index"),
+            ("meta_ed_tail", shapes["shape_tail_mfra"]["data"], "edit(lang) of a file longer than its index"),
+            ("meta_mig_t1", t1, "edit(track id)+track-id migration")]
+    pks = {}
+    for stem, data, _ in plan:
+        tok = _form_token(mc, f"/stream/{spk}", r'id="upload-form">.*?name="csrf_token"\s+value="([^"]+)"')
+        r = mc.post(f"/media/{spk}/blob", data={"ajax": "1", "file": (io.BytesIO(data), f"{stem}.mp4", "video/mp4"),
+                                                 "csrf_token": tok, "stream": str(spk), "submit": "Upload Media"},
+                    content_type="multipart/form-data")
+        if r.status_code != 200 or (r.json or {}).get("error"):
+            raise RuntimeError(f"upload of {stem}: {r.status_code} {r.get_data(as_text=True)[:120]}")
+        pks[stem] = r.json["pk"]
+
+    def index(stem):
+        tok = _form_token(mc, f"/stream/{spk}", r'id="media-files"\s+data-csrf="([^"]+)"')
+        r = mc.get(f"/media/index/{pks[stem]}", query_string={"ajax": "1", "csrf_token": tok})
+        if r.status_code != 200:
+            raise RuntimeError(f"index of {stem}: {r.status_code}")
+
+    def edit(stem, track_id=None, lang=None):
+        with app.ctx() as models:
+            mf = models.MediaFile.get(pk=pks[stem])
+            cur_tid, cur_lang, before = mf.track_id, mf.representation.lang, mf.blob.filename
+        tok = _form_token(mc, f"/stream/{spk}/{pks[stem]}/edit", r'name="csrf_token"\s+value="([^"]+)"')
+        r = mc.post(f"/stream/{spk}/{pks[stem]}/edit",
+                    data={"csrf_token": tok, "track_id": str(track_id if track_id is not None else cur_tid),
+                          "lang": lang if lang is not None else cur_lang})
+        with app.ctx() as models:
+            after = models.MediaFile.get(pk=pks[stem]).blob.filename
+        if r.status_code not in (302, 303) or after == before:
+            raise RuntimeError(f"edit of {stem}: status {r.status_code}, file re-written: {after != before}")
+
+    for stem, _, _ in plan:
+        index(stem)
+    edit("meta_ed_t1", lang="fra")
+    edit("meta_ed_a1", track_id=12)
+    edit("meta_ed2_t1", track_id=7)
+    edit("meta_ed2_t1", lang="deu")
+    index("meta_ed2_t1")
+    edit("meta_ed_tail", lang="ita")
+    # a text file carrying the audio file's track id, then the migration that makes track ids unique
+    with app.ctx() as models:
+        audio_tid = models.MediaFile.get(pk=pks["meta_up_a1"]).track_id
+    edit("meta_mig_t1", track_id=audio_tid)
+    migrated = False
+    with app.ctx() as models:
+        from dashlive.server.models.migrations.unique_track_ids import EnsureTrackIdsAreUnique
+        before = {mf.pk: mf.blob.filename for mf in models.MediaFile.search(stream_pk=spk)}
+        EnsureTrackIdsAreUnique(app.blob_folder).upgrade(models.db.session)
+        models.db.session.commit()
+        migrated = any(mf.blob.filename != before[mf.pk] for mf in models.MediaFile.search(stream_pk=spk))
+    for stem, _, label in plan:
+        _META[stem] = {"route": label, "pk": pks[stem]}
+    _META["meta_mig_t1"]["migrated"] = migrated
+    return _META
+
+
+def meta_info(app, stem):
+    """landmarks of one c13meta file: the bytes ON DISK, the index, the stored Blob.size"""
+    with app.ctx() as models:
+        mf = models.MediaFile.get(pk=_META[stem]["pk"])
+        path = models.MediaFile.absolute_path(mf.stream.directory) / mf.blob.filename
+        segs = mf.representation.segments
+        return {"data": path.read_bytes(), "init_end": segs[0].pos + segs[0].size, "first": segs[1].pos,
+                "indexed_end": segs[-1].pos + segs[-1].size, "nseg": len(segs) - 1, "blob_size": mf.blob.size}
+
+
+def run_stored_metadata(ctx, app, client, ch: Channel, rng):
+    try:
+        meta = _ensure_meta(app)
+    except Exception as e:
+        ch.errors.append(f"stored-metadata stream: {type(e).__name__}: {e}")
+        return
+    for stem, m in meta.items():
+        info = meta_info(app, stem)
+        n = len(info["data"])
+        ch.count(f"stored-metadata:{m['route']}")
+        extra = {"stored_metadata": stem}
+        hs = shape_headers(info) + buffer_edge_headers(n)
+        for v in sorted({info["blob_size"] + d for d in (-1, 0, 1)} - {n - 1, n, n + 1}):   # pool from the object
+            if v >= 0:
+                hs += [f"bytes={v}-", f"bytes=0-{v}", f"bytes=-{max(1, n - v)}"]
+        if n > 100000 and not ctx.thorough:
+            hs = [h for i, h in enumerate(hs) if i % 3 == 0 or h is None or (h and h.startswith("bytes=-"))]
+        res = Resource("od", f"/dash/odvod/{META_STREAM}/{stem}.mp4", info["data"], True, tag="stored-metadata", light=True)
+        run_resource(ctx, client, ch, res, hs, CLOCK0, extra=extra)
+        u = f"/dash/vod/{META_STREAM}/{stem}/{info['nseg']}.mp4"
+        r = client.get(u)
+        if r.status_code >= 500:
+            ch.oracle_failures.append({**extra, "kind": "e2e", "url": u, "header": None, "clock": CLOCK0,
+                                       "what": f"status {r.status_code} (5xx)", "observed": {"status": r.status_code}})
+        if r.status_code == 200:
+            seg = Resource("seg", u, r.data, False, tag="stored-metadata", light=True)
+            run_resource(ctx, client, ch, seg, SMALL_HEADERS + buffer_edge_headers(seg.length), CLOCK0, extra=extra)
+    if not meta.get("meta_mig_t1", {}).get("migrated"):
+        ch.count("stored-metadata:migration-did-not-rewrite-a-file")
+
+
 def class_state():
     """repr of the class-level (shared, mutable) attributes of the handler classes on the path"""
     from dashlive.server.requesthandler import base, media_requests
@@ -1627,6 +1764,7 @@ def run_e2e(ctx, ch: Channel):
                 ch.count("un-ranged-representation-changed-since-the-first-request")
             again = Resource(res.kind, res.url, fresh, res.mandatory, tag="re-issued", light=True)
             run_resource(ctx, other, ch, again, SMALL_HEADERS + buffer_edge_headers(again.length), CLOCK0)
+        run_stored_metadata(ctx, app, client, ch, ctx.rng("e2e-metadata"))
     for k in sorted(set(state0) | set(class_state())):
         if state0.get(k) != class_state().get(k):
             ch.count(f"class-level-state-changed:{k}")
@@ -1680,7 +1818,9 @@ def channels(ctx):
         "defaults requested without options; media URLs and on-demand byte ranges followed exactly as the manifests "
         "spell them; a second client; earlier requests re-issued at the end. Stored files whose length/layout differs from "
         "the index (trailing mfra/free/uuid/bytes, box before ftyp, gap after the init segment): fixed grid of ranges "
-        "around 0, init end, first fragment, indexed end +-2, file length +-1 and suffixes. "
+        "around 0, init end, first fragment, indexed end +-2, file length +-1 and suffixes. Files whose MediaFile/Blob "
+        "rows were written by the application's own routes (upload form, index, edit-media page, re-index, "
+        "track-id migration; media user, real CSRF tokens), judged against the bytes on disk. "
         "non-trivial = 206 or 416; distinct by (url, header[, preceding url])"))
     try:
         run_e2e(ctx, ch2)
@@ -1727,10 +1867,14 @@ def run_case(case):
             url = case["url"]
             if f"/{SHAPE_STREAM}/" in url:
                 _ensure_shapes(app)
+            if f"/{META_STREAM}/" in url:
+                _ensure_meta(app)
             if "/odvod/" in url:
                 parts = url.split("?")[0].split("/")
                 if parts[3] == SHAPE_STREAM:
                     full = _SHAPES[parts[4].rsplit(".", 1)[0]]["data"]
+                elif parts[3] == META_STREAM:
+                    full = meta_info(app, parts[4].rsplit(".", 1)[0])["data"]
                 else:
                     full = _fixture_path(parts[3], parts[4].rsplit(".", 1)[0]).read_bytes()
                 res = Resource("od", url, full, True)
@@ -1792,6 +1936,8 @@ def search(ctx, disagreements):
                     return e2e_failure(client, res, h, why, o)
         probe = Channel("search-shapes")
         run_stored_shapes(ctx, app, client, probe, rng)
+        if not probe.oracle_failures:
+            run_stored_metadata(ctx, app, client, probe, rng)
         if probe.oracle_failures:
             return probe.oracle_failures[0]
         probe = Channel("search-groups")
@@ -1807,7 +1953,7 @@ def replay(ctx, payload):
     if "header" not in f and "header_repeat" not in f:
         return {"fails": False, "note": "replay names a broken obligation, no input", "payload": payload.get("broken")}
     fails, det = run_case(f)
-    return {"fails": fails, "case": {k: f.get(k) for k in ("kind", "url", "header", "length", "clock", "history", "stream_defaults", "stored_shape") if k in f}, **det}
+    return {"fails": fails, "case": {k: f.get(k) for k in ("kind", "url", "header", "length", "clock", "history", "stream_defaults", "stored_shape", "stored_metadata") if k in f}, **det}
 
 
 def replay_finding(ctx, finding):
